@@ -113,13 +113,26 @@ theorem rangeOk_of_small (s : Scr) (c : Car) (hk : ScrOk s) (hc : CurOk s c) (hb
   simp only [RangeOk, InI32]
   omega
 
+/-- the row/column indexing of the content operations is safe for a non-negative cursor and sane margins -/
+theorem not_echPanics (s : Scr) (c : Car) (n : Int) (hx : 0 ≤ c.x) : ¬ EchPanics s c n := by
+  unfold EchPanics; omega
+theorem mtbBottom_nonneg (s : Scr) (hk : ScrOk s) : 0 ≤ mtbBottom s := by
+  unfold mtbBottom
+  split
+  · rename_i t e he; have := hk.mtb t e he; omega
+  · exact Int.le_refl 0
+theorem not_lineOpPanics (s : Scr) (y : Int) (hk : ScrOk s) (hy : 0 ≤ y) : ¬ LineOpPanics s y := by
+  have := mtbBottom_nonneg s hk
+  unfold LineOpPanics; omega
+
 theorem printChar_spec (s : Scr) (c : Car) (hk : ScrOk s) (hc : CurOk s c) (hs : s.bh ≤ 1073741900) :
     okAnd (printChar s c) (fun r => r.1 = { s with bh := r.1.bh } ∧ s.bh ≤ r.1.bh ∧ r.1.bh ≤ s.bh + 124 ∧
       CurOk r.1 r.2 ∧ r.2.ins = c.ins ∧ (InScr s c → InScr r.1 r.2)) := by
   have := hk.tw1; have := hk.tw2; have := hk.th1; have := hk.th2; have := hk.bh0
   obtain ⟨hx0, hx1, hy0, hy1⟩ := hc
   have hn : ¬ (c.ins = true ∧ c.y < 0) := by omega
-  simp only [printChar, hn, if_false]
+  have hn2 : ¬ (c.ins = true ∧ c.x < 0) := by omega
+  simp only [printChar, hn, hn2, if_false]
   have hk1 : ScrOk { s with bh := max s.bh (c.y + 1) } := scrOk_bh s _ hk (by omega)
   have hfv := fv_eq s hk (by omega)
   have hfv1 := fv_bh s (max s.bh (c.y + 1)) hk (by omega) (by omega)
